@@ -304,6 +304,56 @@ func main() {
 				}
 			}
 		}
+		// a token that was accepted while valid must be refused once it has expired (seeded change C14-I: a cache of
+		// verified token strings): the same raw token on every registered route before and after its expiry
+		short := &Token{Kind: "jwt", Alg: "HS256", KeyOK: true, Exp: "future", Nbf: "absent"}
+		{
+			tok := jwt.New()
+			_ = tok.Set("sub", "tester")
+			minted := time.Now()
+			_ = tok.Set(jwt.ExpirationKey, minted.Add(2*time.Second))
+			signed, err := jwt.Sign(tok, jwa.HS256, []byte(secret))
+			if err != nil {
+				panic(err)
+			}
+			short.Raw = string(signed)
+			var regs [][2]string
+			for _, r := range e.routes {
+				if !strings.HasPrefix(r[1], "/debug") {
+					regs = append(regs, r)
+				}
+			}
+			for _, r := range regs {
+				for _, cookie := range []bool{false, true} {
+					c := Case{Profiling: profiling, Method: r[0], Path: r[1], Registered: true}
+					if cookie {
+						c.Cookie = short
+						c.Status, c.JSON, c.Changed, c.Leaks = e.do(r[0], r[1], nil, short)
+					} else {
+						c.Header = short
+						c.Status, c.JSON, c.Changed, c.Leaks = e.do(r[0], r[1], short, nil)
+					}
+					hutil.JSONLine(w, map[string]interface{}{"kind": "case", "c": c, "round": "short_lived_first_use"})
+				}
+			}
+			if d := time.Until(minted.Add(3200 * time.Millisecond)); d > 0 {
+				time.Sleep(d)
+			}
+			expired := &Token{Kind: "jwt", Alg: "HS256", KeyOK: true, Exp: "past", Nbf: "absent", Raw: short.Raw}
+			for _, r := range regs {
+				for _, cookie := range []bool{false, true} {
+					c := Case{Profiling: profiling, Method: r[0], Path: r[1], Registered: true}
+					if cookie {
+						c.Cookie = expired
+						c.Status, c.JSON, c.Changed, c.Leaks = e.do(r[0], r[1], nil, expired)
+					} else {
+						c.Header = expired
+						c.Status, c.JSON, c.Changed, c.Leaks = e.do(r[0], r[1], expired, nil)
+					}
+					hutil.JSONLine(w, map[string]interface{}{"kind": "case", "c": c, "round": "reused_after_expiry"})
+				}
+			}
+		}
 	}
 	close(gate)
 }
